@@ -6,6 +6,13 @@
 use std::sync::atomic::{AtomicBool, AtomicI32, AtomicI64, AtomicU64, Ordering::SeqCst};
 
 pub static ENABLED: AtomicBool = AtomicBool::new(false);
+/// pure mode: the real clock is frozen at enable time; time advances only through sleeps, idle polls,
+/// a tick per clock read and a configurable cost per poll/read/write.  Fully deterministic.
+pub static PURE: AtomicBool = AtomicBool::new(false);
+pub static FROZEN: AtomicI64 = AtomicI64::new(0);
+pub static TICK_NS: AtomicI64 = AtomicI64::new(1000);
+pub static OP_COST_NS: AtomicI64 = AtomicI64::new(0);
+pub static TICKS: AtomicU64 = AtomicU64::new(0);
 pub static SKEW: AtomicI64 = AtomicI64::new(0);
 /// real milliseconds an interposed poll() with a finite timeout really waits before the rest is skipped
 pub static POLL_CAP_MS: AtomicI64 = AtomicI64::new(5);
@@ -35,7 +42,37 @@ pub fn real_ns() -> u64 {
 
 #[inline]
 pub fn now_ns() -> u64 {
+    if ENABLED.load(SeqCst) && PURE.load(SeqCst) {
+        return (FROZEN.load(SeqCst) + SKEW.load(SeqCst)) as u64;
+    }
     (real_ns() as i64 + SKEW.load(SeqCst)) as u64
+}
+
+/// A clock read by the subject in pure mode: returns the time and advances it by one tick.
+pub fn read_and_tick() -> u64 {
+    let t = now_ns();
+    let tick = TICK_NS.load(SeqCst);
+    if tick > 0 {
+        SKEW.fetch_add(tick, SeqCst);
+        TICKS.fetch_add(1, SeqCst);
+    }
+    t
+}
+
+pub fn op_cost() {
+    let c = OP_COST_NS.load(SeqCst);
+    if c > 0 && ENABLED.load(SeqCst) {
+        SKEW.fetch_add(c, SeqCst);
+    }
+}
+
+pub fn enable_pure(cap_ms: i64, jitter_ns: i64, seed: u64, tick_ns: i64, op_cost_ns: i64) {
+    enable(cap_ms, jitter_ns, seed);
+    FROZEN.store(real_ns() as i64, SeqCst);
+    TICK_NS.store(tick_ns, SeqCst);
+    OP_COST_NS.store(op_cost_ns, SeqCst);
+    TICKS.store(0, SeqCst);
+    PURE.store(true, SeqCst);
 }
 
 pub fn enabled() -> bool {
@@ -47,6 +84,7 @@ pub fn enable(cap_ms: i64, jitter_ns: i64, seed: u64) {
     POLL_CAP_MS.store(cap_ms, SeqCst);
     JITTER_NS.store(jitter_ns, SeqCst);
     JSTATE.store(seed | 1, SeqCst);
+    PURE.store(false, SeqCst);
     EXIT_AT.store(0, SeqCst);
     EXIT_FIRED_AT.store(0, SeqCst);
     SLEEPS.store(0, SeqCst);
@@ -57,6 +95,8 @@ pub fn enable(cap_ms: i64, jitter_ns: i64, seed: u64) {
 
 pub fn disable() {
     ENABLED.store(false, SeqCst);
+    PURE.store(false, SeqCst);
+    OP_COST_NS.store(0, SeqCst);
     SKEW.store(0, SeqCst);
     EXIT_AT.store(0, SeqCst);
 }
